@@ -166,6 +166,14 @@ Section CompCtrl.
         cbn [Nat.add]. lia.
   Qed.
 
+  Lemma ctrl_loop_ext step step' init n cs :
+    (forall a b c d, step a b c d = step' a b c d) ->
+    ctrl_loop step init n cs = ctrl_loop step' init n cs.
+  Proof.
+    intros H. unfold ctrl_loop. generalize (seq 0 n). intros l. revert init.
+    induction l as [|x l IH]; intros init; [reflexivity|]. cbn [fold_left]. rewrite H. apply IH.
+  Qed.
+
   (** the integer the loop computes is the pattern read most-significant-control first *)
   Lemma ctrl_index_b2n pat : ctrl_index pat = b2n pat.
   Proof.
